@@ -72,6 +72,7 @@ fn run(name: &str, args: &Value) -> Value {
         "c12_ws_batch_order" => c12::ws_batch_order(args),
         "c12_http_batch" => c12::http_batch(args),
         "c02_batches" => c02::batches(args),
+        "c02_ws_notification_batch" => c02::ws_notification_batch(args),
         "c02_ws_batch_with_subscription" => c02::ws_batch_with_subscription(args),
         "c03_fast_reply" => c03::fast_reply(args),
         "c03_subid_collision" => c03::subid_collision(args),
